@@ -35,6 +35,8 @@ def buffiter(obj, chunk=10, max_chunk=1000, factor=2):
     """
     if factor < 1:
         raise ValueError("factor must be >= 1, got %r" % (factor,))
+    if chunk < 1 or max_chunk < 1:
+        raise ValueError("chunk and max_chunk must be >= 1, got %r, %r" % (chunk, max_chunk))
     it = iter(obj)
     count = chunk
     while True:
